@@ -45,6 +45,9 @@ pub struct Session {
     pub form: &'static str,
     pub args: Vec<String>,
     pub stdin: String,
+    /// the session starts with a run whose parsing thread panics (undefined start rule) and a `run`
+    /// that only reports it; the session proper follows
+    pub after_panic: bool,
 }
 
 pub fn sessions(g: &str, i: &str, rule: &str, bps: &[&str], conts: usize, direct: Option<&str>) -> Vec<Session> {
@@ -60,18 +63,19 @@ pub fn sessions(g: &str, i: &str, rule: &str, bps: &[&str], conts: usize, direct
     let mut v = vec![];
     // `id <text>`: the input given directly on the command line (single-line inputs)
     if let Some(text) = direct {
-        v.push(Session { form: "typed commands, input by id", args: nu.clone(), stdin: format!("g {g}\n{typed_b}id {text}\nr {rule}\n{c}") });
-        v.push(Session { form: "option -g, typed id / b / r", args: cat(&[&nu, &opt("-g", g)]), stdin: format!("id {text}\n{typed_b}r {rule}\n{c}") });
+        v.push(Session { form: "typed commands, input by id", args: nu.clone(), stdin: format!("g {g}\n{typed_b}id {text}\nr {rule}\n{c}"), after_panic: false });
+        v.push(Session { form: "option -g, typed id / b / r", args: cat(&[&nu, &opt("-g", g)]), stdin: format!("id {text}\n{typed_b}r {rule}\n{c}"), after_panic: false });
     }
     v.extend(vec![
-        Session { form: "options: -g -i -b -r", args: cat(&[&nu, &opt("-g", g), &opt("-i", i), &bopts, &opt("-r", rule)]), stdin: c.clone() },
-        Session { form: "options: -r -b -i -g", args: cat(&[&opt("-r", rule), &bopts, &opt("-i", i), &opt("-g", g), &nu]), stdin: c.clone() },
-        Session { form: "options: -b -r -g -i (long names)", args: cat(&[&bps.iter().flat_map(|b| opt("--breakpoint", b)).collect(), &opt("--rule", rule), &opt("--grammar", g), &opt("--input", i), &nu]), stdin: c.clone() },
-        Session { form: "typed commands", args: nu.clone(), stdin: format!("g {g}\ni {i}\n{typed_b}r {rule}\n{c}") },
-        Session { form: "typed commands (long verbs)", args: nu.clone(), stdin: format!("grammar {g}\ninput {i}\n{}run {rule}\n{}", bps.iter().map(|b| format!("breakpoint {b}\n")).collect::<String>(), "continue\n".repeat(conts)) },
-        Session { form: "options -g -i, typed b / r", args: cat(&[&nu, &opt("-g", g), &opt("-i", i)]), stdin: format!("{typed_b}r {rule}\n{c}") },
-        Session { form: "options -g -i -b, typed r", args: cat(&[&nu, &opt("-g", g), &opt("-i", i), &bopts]), stdin: format!("r {rule}\n{c}") },
+        Session { form: "options: -g -i -b -r", args: cat(&[&nu, &opt("-g", g), &opt("-i", i), &bopts, &opt("-r", rule)]), stdin: c.clone(), after_panic: false },
+        Session { form: "options: -r -b -i -g", args: cat(&[&opt("-r", rule), &bopts, &opt("-i", i), &opt("-g", g), &nu]), stdin: c.clone(), after_panic: false },
+        Session { form: "options: -b -r -g -i (long names)", args: cat(&[&bps.iter().flat_map(|b| opt("--breakpoint", b)).collect(), &opt("--rule", rule), &opt("--grammar", g), &opt("--input", i), &nu]), stdin: c.clone(), after_panic: false },
+        Session { form: "typed commands", args: nu.clone(), stdin: format!("g {g}\ni {i}\n{typed_b}r {rule}\n{c}"), after_panic: false },
+        Session { form: "typed commands (long verbs)", args: nu.clone(), stdin: format!("grammar {g}\ninput {i}\n{}run {rule}\n{}", bps.iter().map(|b| format!("breakpoint {b}\n")).collect::<String>(), "continue\n".repeat(conts)), after_panic: false },
+        Session { form: "options -g -i, typed b / r", args: cat(&[&nu, &opt("-g", g), &opt("-i", i)]), stdin: format!("{typed_b}r {rule}\n{c}"), after_panic: false },
+        Session { form: "options -g -i -b, typed r", args: cat(&[&nu, &opt("-g", g), &opt("-i", i), &bopts]), stdin: format!("r {rule}\n{c}"), after_panic: false },
     ]);
+    v.push(Session { form: "typed commands after a run whose thread panicked", args: nu.clone(), stdin: format!("g {g}\ni {i}\n{typed_b}r zzz-not-a-rule\nr {rule}\nr {rule}\n{c}"), after_panic: true });
     v
 }
 
@@ -102,7 +106,18 @@ pub fn check(bin: &std::ffi::OsStr, dir: &std::path::Path, name: &str, grammar: 
         match run(bin, &s) {
             Err(e) => stats.failures.push(format!("cli session could not be run: {e}")),
             Ok(out) => {
-                let got = parse_stdout(&out);
+                let mut got = parse_stdout(&out);
+                if s.after_panic {
+                    // exactly one report of each kind belongs to the prelude: the disconnected first run
+                    // (on stderr, appended after stdout here) and the `run` that reports the panic
+                    for prefix in ["parsing timed out", "Error: Previous parsing execution panic"] {
+                        if let Some(k) = got.iter().position(|x| matches!(x, Shown::Error(t) if t.starts_with(prefix))) {
+                            got.remove(k);
+                        } else {
+                            got.push(Shown::Error(format!("<missing: {prefix}>")));
+                        }
+                    }
+                }
                 if got != want {
                     stats.violation_class("cli-session", json!({"kind": "cli-session-prints-a-different-event-stream", "scenario": name, "grammar": grammar, "input": input, "rule": rule, "breakpoints": bps, "session_form": s.form, "options": s.args, "typed": s.stdin,
                         "printed_events": format!("{got:?}"), "expected_events": format!("{want:?}"), "script": "cli", "channel_capacity": 1, "preemption_bound": 0}));
